@@ -115,6 +115,10 @@ def catalogue():
         wn.get_link("p2").check_valve = True; wn.get_link("p2").initial_status = LS.Closed
     @dev("p_closed", "p2kind")
     def _(wn): wn.get_link("p2").initial_status = LS.Closed
+    @dev("p_source_source")      # a pipe / a TCV that joins the reservoir and the tank directly
+    def _(wn): wn.add_pipe("p9", "R1", "T1", length=800.0, diameter=0.15, roughness=110.0)
+    @dev("v_source_source")
+    def _(wn): wn.add_valve("v9", "R1", "T1", diameter=0.15, valve_type="TCV", minor_loss=0.0, initial_setting=120.0)
     @dev("p_minor")
     def _(wn): wn.get_link("p3").minor_loss = 2.5
     @dev("p_vertices")
